@@ -39,8 +39,8 @@ def family_valuetypes(tier, shard, nshards, acc):
     for idx, (T, comps, pos2, order) in enumerate(c11.programs(tier)):
         if idx % nshards == shard and (order is None or order == tuple(range(len(comps) + 1))):
             mspecs = c11.mspecs_for(T, comps, pos2, order)
-            _run(acc, "valuetypes", "c11", c11.CLASSES, mspecs, [n for n, _ in c11.CORPUS],
-                 lambda n: (((c11.VALUES[n], 5) if pos2 else (c11.VALUES[n],)), {}))
+            _run(acc, "valuetypes", "c11", c11.CLASSES, mspecs, [(n, y) for n, _ in c11.CORPUS for y in c11.second_values(pos2)],
+                 lambda c: (((c11.VALUES[c[0]], c[1]) if pos2 else (c11.VALUES[c[0]],)), {}))
             if idx % 100 == 0:
                 gen.purge_globals()
 
@@ -69,7 +69,7 @@ def replay(case):
     elif fam == "valuetypes":
         classes = c11.CLASSES
         pos2 = "y" in case["methods"][0]["types"]
-        mk = lambda n: (((c11.VALUES[n], 5) if pos2 else (c11.VALUES[n],)), {})  # noqa
+        mk = lambda c: (((c11.VALUES[c[0]], c[1]) if pos2 else (c11.VALUES[c[0]],)), {})  # noqa
     else:
         classes, mk = dict(c14.CLASSES, tuple=tuple), (lambda c: (tuple(c14.value(n) for n in c), {}))
     mspecs = case["methods"]
